@@ -58,9 +58,24 @@ package main
 //@   ensures (not (= res (VStr "$delete")))
 //@   ensures (=> (= dst src) (= res VNil))                                                                    [C15]
 //
-//@ func diffListList(dst, src) (res, err) trusted
+//@ func diffListList(dst, src) (res, err)
+//@   uses appNil, snocApp, keepNotInAll, allInRefl, replaceFallback
+//@   requires (plainT dst)
 //@   ensures (not (isErr err))
-//@   ensures (=> (listClean (ls dst) (ls src)) (=> (= res VNil) (= dst src)))
-//@   ensures (=> (listClean (ls dst) (ls src)) (=> (not (= res VNil)) (and (not (llErr (ls src) (ls res))) ((_ is VList) res) (= (llF (ls src) (ls res)) (ls dst)))))
+//@   ensures (=> (= dst src) (= res VNil))                                                                    [C15]
+//@   ensures (=> (listClean (ls dst) (ls src)) (=> (= res VNil) (= dst src)))                                 [C15]
+//@   ensures (=> (listClean (ls dst) (ls src)) (=> (not (= res VNil))                                         [C15]
+//@              (and (not (llErr (ls src) (ls res))) ((_ is VList) res) (= (llF (ls src) (ls res)) (ls dst)))))
 //@   ensures (not (= res (VStr "$delete")))
-//@   ensures (=> (= dst src) (= res VNil))
+//@   loop 1
+//@     invariant ((_ is VList) ret)
+//@     invariant (= (app (ls ret) (keepNotIn rest (ls src))) (keepNotIn (ls dst) (ls src)))
+//@   loop 2
+//@     invariant (= (lmem v1 rest) (lmem v1 (ls src)))
+//@   loop 3
+//@     invariant ((_ is VList) ret)
+//@     invariant (= dst dst@pre)
+//@     invariant (=> (= dst@pre src) (and (= ret (VList LNil)) (allIn rest (ls dst))))
+//@     invariant (= (hasNonMapRemoved rest (ls dst)) (hasNonMapRemoved (ls src) (ls dst)))
+//@   loop 4
+//@     invariant (= (lmem v1 rest) (lmem v1 (ls dst)))
